@@ -149,6 +149,12 @@ def EnumVerdict.toSexp : EnumVerdict → Sexp
   | .misses θ => .list [.atom "rejected", .atom "enumeration_misses_solution", .list (θ.map tmToSexp)]
   | .inconclusive why => .list [.atom "inconclusive", .atom why]
 
+/-- classifier refinement only (as for `judge-enumeration`): an unsound `Unique` of the SLG solver on a
+    program with coinductive predicates is the F11 shape, also when the goal reaches the coinductive
+    predicate only through an inductive one -/
+def refineF11 (P : Program) (slg : Bool) (c : String) : String :=
+  if c == "unique_does_not_hold" && slg && P.clauses.any (fun cl => P.coind cl.head.pred) then "slg_coinductive_variant_cycle" else c
+
 def opsSem : Sexp → Option Sexp
   | .list [.atom "decide", p, g, fuel] => do
       some (.list [.atom "ok", (evalGoal (← programOfSexp? p) (← fuel.nat?) [] (← goalOfSexp? g)).toSexp])
@@ -205,14 +211,19 @@ def opsSem : Sexp → Option Sexp
       let pool := termsUpTo (← sigOfSexp? sig) (← depth.nat?)
       let cands := (assignments pool (← nvars.nat?)).take (← maxc.nat?)
       -- `ctx` (which solver, which shape of input) only refines the classifier of a rejection
-      some (match (judgeAnswer P (← fuel.nat?) (← goalOfSexp? g) cands (← bool? slg) (answerOfSexp ans)).toSexp with
-        | .list [.atom "rejected", .atom c, d] => .list [.atom "rejected", .atom (c ++ "@" ++ ctx), d]
+      let isSlg ← bool? slg
+      some (match (judgeAnswer P (← fuel.nat?) (← goalOfSexp? g) cands isSlg (answerOfSexp ans)).toSexp with
+        | .list [.atom "rejected", .atom c, d] =>
+            .list [.atom "rejected", .atom (refineF11 P isSlg c ++ "@" ++ ctx), d]
         | r => r)
   | .list [.atom "judge-answer", p, g, nvars, fuel, sig, depth, maxc, slg, ans] => do
       let P ← programOfSexp? p
       let pool := termsUpTo (← sigOfSexp? sig) (← depth.nat?)
       let cands := (assignments pool (← nvars.nat?)).take (← maxc.nat?)
-      some (judgeAnswer P (← fuel.nat?) (← goalOfSexp? g) cands (← bool? slg) (answerOfSexp ans)).toSexp
+      let isSlg ← bool? slg
+      some (match (judgeAnswer P (← fuel.nat?) (← goalOfSexp? g) cands isSlg (answerOfSexp ans)).toSexp with
+        | .list [.atom "rejected", .atom c, d] => .list [.atom "rejected", .atom (refineF11 P isSlg c), d]
+        | r => r)
   | _ => none
 
 end Chalk.Sem
